@@ -19,7 +19,7 @@ func init() {
 	lib.Register(&c03{base: base{
 		id: "C03", level: "exploration",
 		technique: "runtime generator-as-oracle monitor: specifications valid by construction must validate without error and the same specification with exactly one rule-breaking edit must produce at least one error, in all four option configurations (continue-on-errors x strict path uniqueness), both with a fresh SpecValidator and with one validator object per configuration that is reused for every document of the worker (its outcome must equal the fresh one); one third of the documents contain no $ref at all",
-		rule: "documents come from a seeded grammar (paths with 0-2 placeholders incl. two per segment, 1-2 operations per path, parameters of every location inline and via #/parameters, responses inline and via #/responses with headers and examples, definitions with allOf inheritance, $ref, additionalProperties, nested arrays); one case = one clean document or one document with one of 29 single faults, validated under 4 configurations; distinct = FNV-64 of the document text; non-trivial = a fault was applied, or the clean document has >=2 operations or inheritance",
+		rule:      "documents come from a seeded grammar (paths with 0-2 placeholders incl. two per segment, 1-2 operations per path, parameters of every location inline and via #/parameters, responses inline and via #/responses with headers and examples, definitions with allOf inheritance, $ref, additionalProperties, nested arrays); one case = one clean document or one document with one of 29 single faults, validated under 4 configurations; distinct = FNV-64 of the document text; non-trivial = a fault was applied, or the clean document has >=2 operations or inheritance",
 		assumptions: []string{
 			"the generator is the oracle: a clean document breaks no documented rule and a faulted one breaks exactly the named rule (message classes are recorded as evidence, not matched)",
 			"overlapping paths are an error only with strict path uniqueness; with it off the faulted document must be clean",
@@ -134,6 +134,7 @@ func (p *c03) Run(w *lib.Worker, idx int, r *lib.Rand) lib.Case {
 var c03KnownMissing = map[string]string{
 	"array-no-items-referenced-response-typelist": "array-items-rule-skips-referenced-responses",
 	"two-body-params-go-name-collision":           "go-name-collision-drops-parameter",
+	"array-empty-nested-items-header":             "array-items-rule-skips-nested-header-items",
 }
 
 // onlyLiteralXOverlap: every error is the overlap message between <base>/{id} and <base>/X.
